@@ -34,6 +34,9 @@ fn all_distractors(n_terms: usize) -> Vec<Distractor> {
         Distractor::ExtraHeaderLines,
         Distractor::NoTrailingNewline,
         Distractor::TrailingBlankLines,
+        Distractor::HpoaFilledColumns,
+        Distractor::HpoaMinimalColumns,
+        Distractor::NoHeaderBlock,
     ]
 }
 
@@ -51,9 +54,26 @@ fn textual(f: &Facts) -> Facts {
 
 fn with_opts(ctx: &mut Ctx, f: &Facts, o: &JaxOpts, transitive: bool, what: &str) -> Option<Obs> {
     let mut g = f.clone();
-    if o.has(&Distractor::MissingDataVersion) {
+    if o.has(&Distractor::MissingDataVersion) || o.has(&Distractor::NoHeaderBlock) {
         g.version = (0, 0, 0);
         // render() leaves the line out; the expectation is version 0000-00-00
+    }
+    if o.has(&Distractor::NoHeaderBlock) {
+        // a loader may insist on a header (an error is tolerated); if it loads the file, every stanza counts
+        let rendered = jax::render(&g, o);
+        return match jax::load(&rendered, transitive) {
+            Ok(Ok(ont)) => {
+                let r = crate::model::RefOnt::derive(&g);
+                ctx.transitions(g.n_steps());
+                drive::check_against_model(ctx, &ont, &r, Mode::Defaults, if transitive { "jax transitive, no header block" } else { "jax, no header block" }, &|| json!({"facts": g.to_json(), "order": what, "hp.obo": rendered.obo}))
+            }
+            Ok(Err(_)) => None,
+            Err(p) => {
+                ctx.exec();
+                ctx.violation("Ontology::from_standard", "[jax, no header block] panics", json!({"facts": g.to_json(), "observed": p, "hp.obo": rendered.obo}));
+                None
+            }
+        };
     }
     via_jax(ctx, &g, o, transitive, what)
 }
@@ -67,7 +87,7 @@ pub fn run(ctx: &mut Ctx) {
         "release years have four digits".into(),
     ];
     let family: Vec<(Facts, String)> = format_family(if thorough { 4 } else { 4 }, if thorough { 1 } else { 6 }).into_iter().map(|(f, w)| (textual(&f), w)).collect();
-    ctx.space("family/orders-and-single-distractors", &format!("{} fact sets x (all stanza orders + gene-row orders + disease-row orders + is_a lines reversed + 22 single distractors) x from_standard, a subset also through from_standard_transitive; differential against Builder and binary", family.len()));
+    ctx.space("family/orders-and-single-distractors", &format!("{} fact sets x (all stanza orders + gene-row orders + disease-row orders + is_a lines reversed + 25 single distractors) x from_standard, a subset also through from_standard_transitive; differential against Builder and binary", family.len()));
     for (f, what) in &family {
         if !ctx.take() {
             continue;
@@ -115,6 +135,13 @@ pub fn run(ctx: &mut Ctx) {
             o.stanza_order = Some(p.clone());
             with_opts(ctx, f, &o, false, &format!("stanzas {p:?}"));
         }
+        // no header block: whichever stanza comes first, it is a stanza
+        for p in permutations(n) {
+            let mut o = JaxOpts::default();
+            o.stanza_order = Some(p.clone());
+            o.distractors = vec![Distractor::NoHeaderBlock];
+            with_opts(ctx, f, &o, false, &format!("no header block, stanzas {p:?}"));
+        }
         // row orders
         let ng = f.anns.iter().filter(|a| a.kind == Kind::Gene).count();
         let nd = f.anns.len() - ng;
@@ -141,7 +168,7 @@ pub fn run(ctx: &mut Ctx) {
             let mut o = JaxOpts::default();
             o.distractors = vec![d.clone()];
             with_opts(ctx, f, &o, false, &format!("distractor {d:?}"));
-            if matches!(d, Distractor::GeneHeader(_) | Distractor::GeneTrailingColumns | Distractor::GeneMinimalColumns | Distractor::Typedef(_) | Distractor::ExtraTags | Distractor::TagsBetweenIsA | Distractor::ExplicitNotObsolete) {
+            if matches!(d, Distractor::GeneHeader(_) | Distractor::GeneTrailingColumns | Distractor::GeneMinimalColumns | Distractor::Typedef(_) | Distractor::ExtraTags | Distractor::TagsBetweenIsA | Distractor::ExplicitNotObsolete | Distractor::HpoaFilledColumns | Distractor::HpoaMinimalColumns | Distractor::NoHeaderBlock) {
                 with_opts(ctx, f, &o, true, &format!("distractor {d:?} (transitive loader)"));
             }
         }
@@ -152,7 +179,7 @@ pub fn run(ctx: &mut Ctx) {
     let bases: Vec<&(Facts, String)> = family.iter().filter(|(f, _)| [Kind::Gene, Kind::Omim, Kind::Orpha].iter().all(|k| f.anns.iter().any(|a| a.kind == *k)) && f.terms.len() >= 3).collect();
     let step = (bases.len() / if thorough { 40 } else { 10 }).max(1);
     let bases: Vec<&(Facts, String)> = bases.into_iter().step_by(step).collect();
-    ctx.space("bases/pairs-of-distractors", &format!("{} base fact sets x all 231 unordered pairs of distractors x both loaders", bases.len()));
+    ctx.space("bases/pairs-of-distractors", &format!("{} base fact sets x all 300 unordered pairs of distractors x both loaders", bases.len()));
     for (f, what) in bases {
         let ds = all_distractors(f.terms.len());
         for i in 0..ds.len() {
